@@ -15,7 +15,7 @@ from ._pairs import compare_all, V
 
 PID = "C09"
 LEVEL = "model_checking"
-WITNESSES = ["compositions", "cut_inside_season", "cut_at_season_jump", "overshoot_call", "dedup_edges", "final_tables_compared", "reused_instance", "call_ends_exactly_at_termination"]
+WITNESSES = ["compositions", "cut_inside_season", "cut_at_season_jump", "overshoot_call", "dedup_edges", "final_tables_compared", "reused_instance", "call_ends_exactly_at_termination", "numpy_step_counts"]
 NONTRIVIAL = ["cut_at_season_jump", "overshoot_call", "dedup_edges", "reused_instance", "call_ends_exactly_at_termination"]
 
 CONFIGS = {
@@ -87,6 +87,9 @@ def scenarios(tier, seed=0):
         comps = list(compositions(n))
         pick = comps[:: (8 if q else 2)]
         yield {"kind": "brute", "config": name + ("@short" if name != "thermal" else ""), "n": n, "parts": [list(c) for c in pick], "reuse": True}
+    for name in names[:3]:
+        comps = list(compositions(n))
+        yield {"kind": "brute", "config": name + "@short", "n": n, "parts": [list(c) for c in comps[:: (16 if q else 4)]], "numpy_steps": True}
     N = 30 if q else 64
     for name in names:
         for j0 in range(0, N + 1, 4):
@@ -181,7 +184,9 @@ def run(scn):
                         m._initialize()
                     done = 0
                     for ci, k in enumerate(parts):
-                        m.run_model(num_steps=k, initialize_model=bool(scn.get("reuse")) and ci == 0)
+                        # step counts as numpy integers (np.diff of observation days, rng.integers ...) are as valid as Python ints
+                        kk = __import__("numpy").int64(k) if scn.get("numpy_steps") else k
+                        m.run_model(num_steps=kk, initialize_model=bool(scn.get("reuse")) and ci == 0)
                         done += k
                         res["transitions"] += k
                         res["evals"] += 1
@@ -204,6 +209,8 @@ def run(scn):
                         wit["overshoot_call"] = wit.get("overshoot_call", 0) + 1
                     check_final(m, ref, res, {"parts": parts})
                     wit["compositions"] = wit.get("compositions", 0) + 1
+                    if scn.get("numpy_steps"):
+                        wit["numpy_step_counts"] = wit.get("numpy_step_counts", 0) + 1
             else:
                 N = min(scn["N"], ref.total - 1)
                 for j in scn["js"]:
